@@ -398,6 +398,153 @@ def M8(kinds):
 
 
 # ---------------------------------------------------------------------------------------
+# part 3: operation histories on ONE writer object (appends, in-place overwrites and observers interleaved)
+HIST_APPEND = [('uint', 1), ('uint', 7), ('uint', 8), ('uint', 16), ('uint', 24), ('int', 9), ('bool', 1), ('bytes', 8),
+               ('bin', 3), ('skip', 3), ('skip', 8)]
+HIST_OPS = [('app',) + k for k in HIST_APPEND] + [('set', 0), ('set', 1), ('set', 2), ('obs',)]
+
+
+def hist_body(ops):
+    """ops: tuple over HIST_OPS.  ('set', j) overwrites the j-th most recent unsigned field written so far (if there is
+    one) with a value that differs from what it holds; ('obs',) observes to_bytes() (when the stream is octet aligned)
+    and get_pos() WITHOUT being the last operation.  After every operation the writer position must equal the model's,
+    every observation must equal the model's bytes at that moment, and the final bytes are read back field by field."""
+    get_bit_writer, get_bit_reader, BitReadError, PyBufrKitError = _impl()
+
+    def body(ctx):
+        viol = []
+        W = get_bit_writer()
+        M = BitBuf()
+        fields = []          # (kind, width, bitpos, value) of what the stream holds
+        nobs = 0
+        for i, op in enumerate(ops):
+            if op[0] == 'app':
+                kind, w = op[1], op[2]
+                pos = M.n
+                if kind == 'uint':
+                    v = ((0x5A5A5A >> i) & ((1 << w) - 1)) if ctx.pick('v%d' % i, 2, 'D') == 0 else (1 << w) - 1
+                    W.write_uint(v, w)
+                    M.put(v, w)
+                elif kind == 'int':
+                    v = [-77, 255, -255, 0][ctx.pick('v%d' % i, 4, 'D')]
+                    W.write_int(v, w)
+                    M.put_signmag(v, w)
+                elif kind == 'bool':
+                    v = [True, False][ctx.pick('v%d' % i, 2, 'D')]
+                    W.write_bool(v)
+                    M.put(1 if v else 0, 1)
+                elif kind == 'bytes':
+                    v = [b'Q', b'', b'xy'][ctx.pick('v%d' % i, 3, 'D')]
+                    W.write_bytes(v, 1)
+                    M.put_bytes(fit_bytes(v, 1))
+                    v = fit_bytes(v, 1)
+                elif kind == 'bin':
+                    v = ['101', '000', '111'][ctx.pick('v%d' % i, 3, 'D')]
+                    W.write_bin(v)
+                    M.put(int(v, 2), 3)
+                else:
+                    v = 0
+                    W.skip(w)
+                    M.put(0, w)
+                fields.append([kind, w, pos, v])
+            elif op[0] == 'set':
+                us = [f for f in fields if f[0] == 'uint']
+                if len(us) <= op[1]:
+                    return 'noop', viol, fields          # nothing to overwrite: not a case
+                f = us[-1 - op[1]]
+                v = (f[3] + 1 + ctx.pick('s%d' % i, 2, 'D')) & ((1 << f[1]) - 1)
+                W.set_uint(v, f[1], f[2])
+                M.overwrite(v, f[1], f[2])
+                f[3] = v
+            else:
+                nobs += 1
+                if M.n % 8 == 0:
+                    got = W.to_bytes()
+                    if got != M.to_bytes():
+                        viol.append({'sig': 'hist-observed-bytes:after-%s' % (ops[i - 1][0] if i else 'nothing'),
+                                     'detail': 'to_bytes() after operation %d differs from the model' % i,
+                                     'expected': M.to_bytes(), 'observed': got})
+            if W.get_pos() != M.n:
+                viol.append({'sig': 'hist-writer-pos:%s' % op[0], 'detail': 'after operation %d (%r) writer at %d, model at %d'
+                             % (i, op, W.get_pos(), M.n), 'expected': M.n, 'observed': W.get_pos()})
+                return 'pos', viol, fields
+        b = _finish_bytes(W)
+        M.pad_to_octet()
+        if b != M.to_bytes():
+            viol.append({'sig': 'hist-bytes:' + '+'.join(sorted({o[0] for o in ops})), 'detail': 'final bytes differ from the model',
+                         'expected': M.to_bytes(), 'observed': b})
+        if W.to_bytes() != b:
+            viol.append({'sig': 'hist-tobytes-unstable', 'detail': 'two consecutive to_bytes() calls differ'})
+        R = get_bit_reader(b)
+        for kind, w, pos, v in fields:
+            if kind == 'uint':
+                got = R.read_uint(w)
+            elif kind == 'int':
+                got = R.read_int(w)
+            elif kind == 'bool':
+                got = R.read_bool()
+            elif kind == 'bytes':
+                got = R.read_bytes(1)
+            elif kind == 'bin':
+                got = R.read_bin(w)
+            else:
+                got = R.read_uint(w)
+            if got != v:
+                viol.append({'sig': 'hist-readback:%s' % kind, 'detail': '%s field of %d bits at %d reads back %r, holds %r'
+                             % (kind, w, pos, got, v), 'expected': v, 'observed': got})
+                break
+        return 'ok:%d' % nobs, viol, fields
+    return body
+
+
+def hist_roots(L):
+    """every operation sequence of length <= L that contains at least one overwrite or one observation which is not the
+    first operation (plain append sequences are the subject of part 2)"""
+    out = []
+    for n in range(2, L + 1):
+        for ops in itertools.product(HIST_OPS, repeat=n):
+            kinds = [o[0] for o in ops]
+            if 'set' not in kinds and 'obs' not in kinds[1:]:
+                continue
+            if kinds[0] != 'app':
+                continue
+            # an overwrite needs enough unsigned fields before it
+            nu, ok = 0, True
+            for o in ops:
+                if o[0] == 'app' and o[1] == 'uint':
+                    nu += 1
+                elif o[0] == 'set' and nu <= o[1]:
+                    ok = False
+                    break
+            if ok:
+                out.append(ops)
+    return out
+
+
+def run_histories(args):
+    roots, bound = args
+    p = Partial()
+    st = tree.Stats()
+    for ops in roots:
+        body = hist_body(ops)
+
+        def on_leaf(ctx, result, ops=ops):
+            outcome, viol, fields = result
+            p.n['exec'] += 1
+            p.outcome((tuple(o[0] for o in ops), outcome, ctx.deviations()))
+            if not p.samples:
+                p.sample({'ops': [list(o) for o in ops]})
+            for v in viol:
+                p.violation(v['sig'], {'ops': [list(o) for o in ops], 'choices': ctx.vector()},
+                            v['detail'], v.get('expected'), v.get('observed'))
+        tree.explore(body, bound, on_leaf, st)
+    p.n['nodes'] += st.nodes
+    p.n['edges'] += st.edges
+    p.n['max_depth'] = max(p.n['max_depth'], st.max_depth)
+    return p
+
+
+# ---------------------------------------------------------------------------------------
 def replay(part, case):
     if part == 'lattice':
         _, viol = lattice_case(case)
@@ -405,6 +552,10 @@ def replay(part, case):
     if part.startswith('sequences'):
         kinds = [tuple(k) for k in case['kinds']]
         ctx, (outcome, viol, fields) = tree.replay(seq_body(kinds), case['choices'])
+        return viol
+    if part.startswith('writer-histories'):
+        ops = tuple(tuple(o) for o in case['ops'])
+        ctx, (outcome, viol, fields) = tree.replay(hist_body(ops), case['choices'])
         return viol
     raise ValueError(part)
 
@@ -439,4 +590,15 @@ def main(tier, seed):
         parts = run_shards(run_sequences, [(s, d) for s in shards])
         rep.add_part('sequences-L%d-d%d' % (L, d), merge_all(parts),
                      bounds={'max_len': L, 'deviations': d, 'field_kinds': len(ks), 'roots': len(roots)})
+
+    for L, d in ([(3, 1), (4, 0)] if tier == 'quick' else [(4, 1), (5, 0)]):
+        roots = hist_roots(L)
+        shards = split(roots, 64)
+        k = seed % len(shards)
+        shards = shards[k:] + shards[:k]
+        parts = run_shards(run_histories, [(s, d) for s in shards])
+        rep.add_part('writer-histories-L%d-d%d' % (L, d), merge_all(parts),
+                     bounds={'max_len': L, 'deviations': d, 'operations': len(HIST_OPS), 'roots': len(roots),
+                             'alphabet': 'append {uint 1/7/8/16/24, int 9, bool, bytes 1, bin 3, skip 3/8}, overwrite of the '
+                                         '1st/2nd/3rd most recent unsigned field, observation (to_bytes when aligned, get_pos)'})
     return rep.finish()
